@@ -26,7 +26,35 @@ command('say', cmd=['echo', 'it is', '$HOME', exe], environment={'K': 'v w'})
 test([exe, '--x', 'y z'], environment={'T': '1 2'})
 default(exe, cp)
 """
-PROJECTS = {'libraries': (PROJECT_A, None), 'steps-and-specials': (PROJECT_B, None)}
+PROJECT_C = """
+project('r')
+global_link_options(['-Wl,--as-needed'])
+hdr = header_file('api.h')
+genh = build_step('gen.h', cmd=['cp', source_file('gen.h.in'), 'gen.h'])
+lib = static_library('foo', files=['a.c'])
+t = executable('t', files=['main.c'], libs=[lib])
+prog = executable('prog', files=['s.c', 'main.c'], includes=[hdr, genh], libs=[lib])
+tool = build_step('tool.sh', cmd=['cp', source_file('tool.sh.in'), 'tool.sh'])
+out = build_step('out.txt', cmd=['sh', tool, build_step.input], files=['data.txt'], extra_deps=[source_file('notes.txt')])
+gen = build_step('gen.txt', cmd=['cp', source_file('in.txt'), 'gen.txt'])
+link = copy_file('link.txt', gen, mode='symlink')
+final = build_step('final.txt', cmd=['cp', link, 'final.txt'])
+test(t)
+"""
+# what the script of PROJECT_C describes: {target: prerequisites} for the steps it declares itself (objects and
+# directory sentinels are left to the backends), and what `all` builds (everything except the test-only program)
+GRAPH_C = {
+    'gen.h': {'{src}/gen.h.in'}, 'tool.sh': {'{src}/tool.sh.in'},
+    'out.txt': {'{src}/data.txt', 'tool.sh', '{src}/notes.txt'},
+    'gen.txt': {'{src}/in.txt'}, 'link.txt': {'gen.txt'}, 'final.txt': {'link.txt'},
+    'libfoo.a': {'libfoo.int/a.o'}, 't': {'t.int/main.o', 'libfoo.a'},
+    'prog': {'prog.int/s.o', 'prog.int/main.o', 'libfoo.a'},
+    'prog.int/main.o': {'{src}/main.c', '{src}/api.h', 'gen.h'}, 'prog.int/s.o': {'{src}/s.c', '{src}/api.h', 'gen.h'},
+    'all': {'prog', 'libfoo.a'},        # programs and libraries that are not test-only; steps are built on demand
+    'tests': {'t'},
+}
+PROJECTS = {'libraries': (PROJECT_A, None), 'steps-and-specials': (PROJECT_B, None),
+            'described-graph': (PROJECT_C, GRAPH_C)}
 
 
 def norm_path(p):
@@ -116,12 +144,14 @@ class CrossBackend(Bounded):
     assignments) for building, testing, installing and uninstalling, and compile_commands.json entries that match
     the compile steps of their backend."""
     target = 'bfg9000/builtins/compile.py::ninja_compile'
-    properties = ('C06',)
+    properties = ('C06', 'C03')
     reason = 'relational property across three emitters per builtin: runtime contract on the real pipeline'
     native_chunk = 1
 
     def native_inputs(self, case, alphabet, maxlen, rng, extra=0):
         for k in PROJECTS:
+            if getattr(self, 'active_property', None) == 'C03' and PROJECTS[k][1] is None:
+                continue
             yield {'project': k}
 
     def native_check(self, case, raw):
@@ -140,6 +170,8 @@ class CrossBackend(Bounded):
             for i in range(3):
                 w('lib/f%d.c' % i, 'int f%d(void) { return %d; }\n' % (i, i))
                 w('include/d%d/h%d.h' % (i, i), '')
+            for f in ('api.h', 'gen.h.in', 'tool.sh.in', 'data.txt', 'notes.txt', 'in.txt'):
+                w(f, '')
             for f in ('s.c', 's2.c', 's3.c', 'a.c', 'template.c'):
                 w(f, 'int fn_%s(void) { return 0; }\n' % f.replace('.', '_'))
             w('main.c', 'int main(void) { return 0; }\n')
@@ -197,8 +229,9 @@ class CrossBackend(Bounded):
                 return out
             try:
                 build_lines = make_lines('all')
-                goals = [o for o in n_edges if o not in SPECIAL and o not in ('all',)]
-                extra = make_lines(*[g for g in ('everything', 'say', 'tests') if g in n_edges])
+                produced = [o for b_ in nf.builds if b_.rule not in ('phony', 'regenerate') for o in b_.outputs
+                            if norm_path(o) not in SPECIAL]
+                extra = make_lines(*([g for g in ('everything', 'say', 'tests') if g in n_edges] + produced))
             except RuntimeError as e:
                 return self.fail(case, raw, 'make_dry_run_succeeds', output=str(e))
             m_cmds = {}
@@ -246,6 +279,15 @@ class CrossBackend(Bounded):
                 nd = sorted({norm_path(t) for d in n_edges[o] for t in d.split(' ')})
                 if m_edges[o] != nd:
                     return self.fail(case, raw, 'same_dependency_relation', file=o, make=m_edges[o], ninja=nd)
+            # ---- the graph the script describes (projects that come with one) -------------------------------------
+            graph = PROJECTS[raw['project']][1]
+            if graph:
+                for tgt, deps in graph.items():
+                    want = sorted(norm_path(d.format(src=src)) for d in deps)
+                    for be, edges in (('make', m_edges), ('ninja', n_edges)):
+                        if tgt not in edges or sorted(set(edges[tgt])) != want:
+                            return self.fail(case, raw, 'dependencies_are_the_ones_the_script_describes', backend=be,
+                                             file=tgt, written=edges.get(tgt), described=want)
             # ---- compile_commands.json of each backend against that backend's compile steps ------------------
             for b, cmds in ((bm, set(m_cmds)), (bn, n_set)):
                 db = json.load(open(b + '/compile_commands.json'))
